@@ -1,7 +1,7 @@
 (* C12 - Listeners and the model are first-class callback providers, attached once.  Statements only. *)
 From Coq Require Import List Arith Bool.
 Import ListNotations.
-From PySM Require Import Impl.Engine Impl.Registry Impl.Process Proofs.EngineProofs Proofs.RegistryProofs Proofs.ProcessProofs.
+From PySM Require Import Impl.Engine Impl.Registry Impl.History Impl.Process Proofs.EngineProofs Proofs.RegistryProofs Proofs.ProcessProofs Proofs.RegroupRefuted.
 
 (* parity: an action / validator name gets exactly one wrapper per provider of the resolution round
    that has the attribute, with the spec's event filter and expected value - machine, model,
@@ -31,6 +31,16 @@ Theorem C12_guard_must_hold_on_all :
   forall beh cbs, truthy (chain_val beh cbs) = forallb (fun cb => truthy (ret (beh cb 0))) cbs.
 Proof. exact chain_val_truthy. Qed.
 Print Assumptions C12_guard_must_hold_on_all.
+
+(* ... which for an `unless` entry is NOT "the guard holds on all of them" (deviation D25, known finding):
+   a machine constructed with a listener on which `blocked` is true fires the transition guarded by
+   unless="blocked" (the same listener attached later is a separate entry and blocks it) *)
+Theorem C12_unless_over_providers_of_one_round_refuted :
+  exists md, md_rounds md = [[0; 1; 2]] /\
+             truthy (ret (says {| cb_prov := 2; cb_name := blocked |} 0)) = true /\
+             outcome_of md [open_] = [RVal no_res].
+Proof. exact unless_over_round_providers_refuted. Qed.
+Print Assumptions C12_unless_over_providers_of_one_round_refuted.
 
 (* attaching the same listeners again never duplicates a call: resolving a round twice in a row, or
    again after any number of other attachments, leaves the executor as it was *)
